@@ -20,6 +20,7 @@ var tiers = map[string][3]int{
 	"C14": {1500, 30000, 0},
 	"C04": {600, 8000, 0},
 	"C01": {300, 8000, 300},
+	"C19": {1500, 30000, 0},
 }
 
 func tierOf(id string, thorough bool) tierCfg {
@@ -71,5 +72,9 @@ func init() {
 		FuzzTarget:  "FuzzSession",
 		Rule:        "chaos sessions: 1-3 files drawn from {valid program; 1-5 token mutations; byte splices (NUL, 0x80-0xFF, stray quotes/brackets); 40 hostile templates (10^3-10^4-deep nesting, unfinished strings/long brackets/comments at EOF, backslash at EOF, operator runs, malformed numerals, cyclic value chains); hostile annotation blocks (cyclic classes / aliases, enum blocks, broken generics/overloads); generated annotation lines with character corruptions; random bytes}; configuration = server default, random client flag subset with ignore lists (incl. invalid regular expressions), a well-typed random luahelper.json, or a broken / wrongly typed luahelper.json (a clean initialize error is accepted); then 5-40 conformant steps (didOpen, full and incremental didChange, save = disk write + didSave, didClose, watched-file create/change/delete with the disk operation, didChangeConfiguration, didChangeWorkspaceFolders) interleaved with every request kind at token starts/ends, line starts/ends, EOF, (0,0) and characters beyond the line end. Oracle: the process is alive, every request got a result or a JSON-RPC error within 20 s (re-run alone with 120 s and the default 1 GB stack before reporting), the parser's recover() swallowed no non-sentinel panic. Non-trivial: a session with a non-valid or annotated file and a request issued after an edit; distinct by case.",
 		Assumptions: append([]string{"executor stack limit 128 MiB (every stack overflow is re-confirmed under the default limit)", "non-conformant traffic is not generated"}, commonAssume...),
+	}
+	props["C19"] = propCfg{
+		Rule:        "1-3 files built from declaration templates with unique names: top-level locals, globals, global and local functions, local and global tables with members defined as function t.f / function t:m / t.f = function / t.v = literal, ---@class blocks followed by their variable, table constructors with fields; function bodies contain nested locals. Oracle: the generator knows every declaration and the byte offset of its declaring identifier; documentSymbol (flattened) must hold, for each declaration, an entry whose name contains the declared name and whose well-formed in-file range contains the declaring identifier; workspace/symbol with the exact name of every global, global function and member of a global table must return an entry in the declaring file located at the declaring identifier. Non-trivial: a workspace with >= 2 table members; distinct by workspace text.",
+		Assumptions: append([]string{"don't-care: extra entries, detail, kind, name decoration, locals inside functions, fields written inside a table constructor"}, commonAssume...),
 	}
 }
